@@ -124,7 +124,7 @@ fn obs_islice(m: &[u8], start: usize) -> String {
         let mut first = true;
         for l in Label::iter_slice(&m2[..], start) {
             n += 1;
-            if n > 100_000 { return "Endless".to_string(); }
+            if n > 2_000_000 { return "Endless".to_string(); }
             if !first { s.push(','); }
             first = false;
             if l.is_root() { s.push('.'); } else { s.push_str(&hex(l.as_slice())); }
@@ -909,14 +909,73 @@ fn read_all(bytes: &[u8], query: &[u8]) -> (String, Vec<(String, String)>, Vec<u
         for l in Label::iter_slice(bytes, st) {
             t.within(l.as_slice(), "slice label");
             let _ = write!(t.s, "{}.", l);
-            k += 1; if k > 100_000 { t.bad.push(("hang".to_string(), "slice label iterator is endless".into())); break; }
+            k += 1; if k > 5_000_000 { t.bad.push(("hang".to_string(), "slice label iterator is endless".into())); break; }
         }
         t.s.push('/');
     }
     (t.s, t.bad, t.types)
 }
 
+
+// ------------------------------------------------- every way of creating the view
+
+/// The cheap read-side calls on a view, whatever constructor produced it.
+fn exercise_view(msg: &Message<[u8]>) -> String {
+    let h = msg.header();
+    let c = msg.header_counts();
+    let _ = msg.header_section();
+    let nq = msg.question().take(70_000).count();
+    let nr = msg.iter().take(200_000).count();
+    let fq = msg.first_question().is_some();
+    let sq = msg.sole_question().is_ok();
+    let cn = msg.canonical_name().is_some();
+    let op = msg.opt().is_some();
+    let ia = msg.is_answer(msg);
+    let dig = format!("{}", msg.for_slice_ref().display_dig_style());
+    format!("{} {} {} {} {} {} {} {} {} {} {}", h.id(), c.qdcount(), c.arcount(), nq, nr, fq, sq, cn, op, ia, dig.len())
+}
+
+/// Acceptance by every constructor that takes raw octets ("1" accepted / "0" refused), and the
+/// constructors whose view panicked when read.
+fn constructors(bytes: &[u8]) -> (String, Vec<(&'static str, String)>) {
+    let mut acc = String::new();
+    let mut bad: Vec<(&'static str, String)> = vec![];
+    macro_rules! ctor {
+        ($name:expr, $make:expr) => {{
+            let b = bytes.to_vec();
+            let r = catch(move || {
+                let b = b;
+                match $make(&b) {
+                    Some(view_bytes_ok) => { let _: String = view_bytes_ok; true }
+                    None => false,
+                }
+            });
+            match r {
+                Ok(true) => acc.push('1'),
+                Ok(false) => acc.push('0'),
+                Err(e) => { acc.push('P'); bad.push(($name, format!("{} at {}", e, last_site()))); }
+            }
+        }};
+    }
+    ctor!("from_octets_ref", |b: &Vec<u8>| Message::from_octets(&b[..]).ok().map(|m| exercise_view(m.for_slice())));
+    ctor!("from_octets_vec", |b: &Vec<u8>| Message::from_octets(b.clone()).ok().map(|m| exercise_view(m.for_slice())));
+    ctor!("from_octets_bytes", |b: &Vec<u8>| Message::from_octets(Bytes::from(b.clone())).ok().map(|m| exercise_view(m.for_slice())));
+    ctor!("from_slice", |b: &Vec<u8>| Message::from_slice(&b[..]).ok().map(|m| exercise_view(m)));
+    ctor!("try_from_octets_ref", |b: &Vec<u8>| Message::try_from_octets(&b[..]).ok().map(|m| exercise_view(m.for_slice())));
+    ctor!("try_from_octets_vec", |b: &Vec<u8>| Message::try_from_octets(b.clone()).ok().map(|m| exercise_view(m.for_slice())));
+    ctor!("try_from_octets_bytes", |b: &Vec<u8>| Message::try_from_octets(Bytes::from(b.clone())).ok().map(|m| exercise_view(m.for_slice())));
+    (acc, bad)
+}
+
 fn oracle_msg(out: &mut Out, bytes: &[u8], query: &[u8], kind: &str) {
+    {
+        phase("constructor");
+        let case = format!("msg {}", hex(bytes));
+        out.begin(&case);
+        let (_, bad) = constructors(bytes);
+        if bad.is_empty() { out.check(true, "panic_view", &case, ""); }
+        for (name, d) in bad.iter() { out.check(false, &format!("panic_view_{}", name), &case, d); }
+    }
     let case = format!("msg {}", hex(bytes));
     out.begin(&case);
     let b1 = bytes.to_vec(); let q1 = query.to_vec();
@@ -1517,8 +1576,7 @@ fn corpus() -> Vec<Vec<u8>> {
     let hdr = |qd: u16, an: u16, ns: u16, ar: u16| { let mut h = vec![0u8, 7, 0x80, 0]; for c in [qd, an, ns, ar] { h.extend(&c.to_be_bytes()); } h };
     let mut v: Vec<Vec<u8>> = vec![];
     v.push(vec![]);
-    v.push(vec![0; 11]);
-    v.push(vec![0; 12]);
+    for n in 0..=13usize { for fill in [0u8, 0xff, 0xc0] { v.push(vec![fill; n]); } }
     // ANCOUNT = 0xFFFF and one question (canonical_name overflow, fixed)
     { let mut m = hdr(1, 0xFFFF, 0, 0); m.extend(b"\x01a\x00\x00\x01\x00\x01"); v.push(m); }
     // self pointer as qname, pointer to itself + 2, pointer into header
@@ -1567,6 +1625,12 @@ fn real_main() {
         *idx += 1;
         if !out.wants(*idx) { return; }
         oracle_msg(out, m, &query, kind);
+        if m.len() <= 40 || *idx % 16 == 0 {
+            let c = format!("ctor {}", hex(m));
+            out.begin(&c);
+            let (acc, _) = constructors(m);
+            out.case(&c, &acc, m.len() >= 12, "ctor");
+        }
         if !t2 && (kind == "rdatafocus" || kind == "optfocus") && *idx % 2 == 0 && m.len() <= 1000 {
             // typed data, display walk, typed options and the dig skeleton for every other focus message
             let ops = "t,V,O,P";
